@@ -8,6 +8,28 @@ def thms(mod, names):
     return {mod: [mod + "." + n for n in names]}
 
 PROPS = {
+    "C11": {
+        "theorems": thms(P + "C11", ["C11_phy_total", "C11_short_rejected"]),
+        "ties": thms(T + "Protocol", ["tie_minimumMessageSize", "tie_maxFOptsLen", "tie_maxPayloadSize", "tie_mtypes", "tie_isValidBufferOp", "tie_macUplinkTable", "tie_macDownlinkTable"]),
+        "engines": ["phydec"],
+        "assumptions": ["the frame decoder is the only parser of radio payloads; stages after it are covered by the pipeline engines"],
+        "trusted_base": ["Go index/slice panics transcribed as Res.panic in Model/Phy.lean, Model/Mac.lean"],
+    },
+    "C12": {
+        "theorems": thms(P + "C12", ["C12_decode_fields", "C12_reject_version", "C12_reject_mtype", "C12_contained"]),
+        "ties": thms(T + "Protocol", ["tie_minimumMessageSize", "tie_maxFOptsLen", "tie_maxPayloadSize", "tie_mtypes", "tie_maxSupportedVersion", "tie_devAddrMasks"]),
+        "engines": ["phydec", "phyenc"],
+        "assumptions": [],
+        "trusted_base": ["LoRaWAN 1.0 section 4 framing transcribed as Spec/Frame.lean"],
+    },
+    "C13": {
+        "theorems": thms(P + "C13", ["C13_cid_dir", "C13_length", "C13_layout", "C13_constructors", "C13_roundtrip_fields", "C13_encode_guard",
+                                     "C13_add_inv", "C13_reachable_inv", "C13_encoded_length_exact"]),
+        "ties": thms(T + "Protocol", ["tie_macUplinkTable", "tie_macDownlinkTable", "tie_isValidBufferOp", "tie_maxFOptsLen"]),
+        "engines": ["mac", "macset"],
+        "assumptions": ["MACCommandSet.Copy (map iteration order) is not modelled; the server never calls it with a non-empty set"],
+        "trusted_base": ["LoRaWAN 1.0 sections 5 and 14 command layouts transcribed as Spec/MacLayout.lean"],
+    },
     "C14": {
         "theorems": thms(P + "C14", ["C14_eq_rfc4493", "C14_pure"]),
         "ties": thms(T + "Cmac", ["tie_constBSize", "tie_constZero", "tie_constRb"]),
@@ -18,6 +40,21 @@ PROPS = {
 }
 
 MANIFEST_TEXT = {
+    "C11": {
+        "level": "Lean theorem C11_phy_total: for every byte string of every length UnmarshalBinary's model returns a value or an error, never a panic (induction over the MAC-command loop with a cursor invariant); tied to pkg/protocol by regenerated facts and by differential decoding of >10k (quick) / >500k (thorough) byte strings incl. all 256x256 MHDR/FCtrl pairs, with 0..64 bytes spare capacity, outcome (ok/err kind/panic) compared.",
+        "note": "gateway datagram path and the stages behind the decoder are checked by their own engines as they are built; wedging via back-pressure/timers is runtime behaviour no model exhibits (partial)",
+        "technique": "Lean 4 proof (totality by induction, cursor invariant) + regenerated-facts tie + differential correspondence",
+    },
+    "C12": {
+        "level": "Lean theorems C12_decode_fields / C12_contained / C12_reject_*: for every byte string, an accepted data frame parses under the independent LoRaWAN 1.0 spec and every reported field equals the spec's (port-0 remainder: containment), nothing reported beyond the slice, unsupported version/type rejected. Encode direction and round trip decided by correspondence against the Lean spec layout (theorem pending).",
+        "note": "model hand-written; encode-direction theorem not yet proved (decided by correspondence + spec oracle only)",
+        "technique": "Lean 4 proof (model = spec parse, list/cursor arithmetic by omega, byte laws by decide) + differential correspondence",
+    },
+    "C13": {
+        "level": "Lean theorems: each of the 22 commands has the spec's CID/direction, its declared length, the spec's octets for all fitting values (C13_layout), decodes back (C13_roundtrip_fields); Add preserves limit/direction/CID-order for every offer sequence (C13_reachable_inv); encode writes exactly EncodedLength bytes. Tied by the regenerated CID/type/Length table and by exhaustive (<=12 bits quick, <=24 bits thorough) differential encode/decode through the public frame path.",
+        "note": "command bodies tied by correspondence (the extractor ties CID, constructor, direction flag, Length literal, guard operator)",
+        "technique": "Lean 4 proof (case analysis over 22 commands, decide for bit packing, omega for 16/24-bit fields, induction over offers) + differential correspondence",
+    },
     "C14": {
         "level": "Lean theorem C14_eq_rfc4493: for every block function E, every key and every message length the model of AESCMAC equals RFC 4493 (bit-string spec); model tied to pkg/cmac by regenerated constants and by differential runs (tag and caller's backing array compared) on every length 0..96 (quick) / 0..1024 x capacities 0..64 (thorough). Purity is decided by the correspondence/oracle on the real code; the Lean statement C14_pure covers the model's copy semantics only.",
         "note": "AES is a parameter (crypto/aes trusted); model hand-written; Go slice/append semantics as transcribed; Lean driver AES tested against FIPS-197 vectors and crypto/aes",
